@@ -359,3 +359,16 @@ Proof.
     destruct (st_update _ _ _) eqn:U; cbn; try discriminate; [|exfalso; eapply N; eassumption].
     destruct (st_valid_storage a); cbn; discriminate.
 Qed.
+
+Lemma st_globals_consumer_types : st_global_type_disagreements = [] /\ st_global_consumers_declared = true.
+Proof. vm_compute. split; reflexivity. Qed.
+
+(* a float value update_globals accepts is finite (config.StringToInterface, read off the source by the translator) *)
+Lemma st_global_float_finite : forall raw po v, st_parse true StFloat raw po = ROk v ->
+  exists b, po_flt po = Some b /\ fl_finite b = true.
+Proof.
+  intros raw po v H. cbn [st_parse] in H. destruct (po_flt po) as [b|]; [|discriminate].
+  exists b. split; [reflexivity|].
+  assert (G : gen_globals_float_finite_only = true) by (vm_compute; reflexivity). rewrite G in H. cbn [andb] in H.
+  destruct (fl_finite b); [reflexivity|discriminate].
+Qed.
